@@ -154,7 +154,12 @@ def build_cli(case, work):
             "--grain-symbol=GRAIN", "--grain-model=", "--network-files=net.naunet", "--file-formats=naunet", "--heating=", "--cooling=", "--shielding=",
             f'--rate-modifier="{rm}"', "--solver=cvode", "--device=cpu", "--method=dense", "--render", "--render-force"]
     if om:
-        args.append(f'--ode-modifier="{";".join(om)}"')
+        if len(case["net"]["reactions"]) % 3 == 0:
+            # the option may be repeated: one occurrence per term, a species may be named by several occurrences
+            for term in om:
+                args.append(f'--ode-modifier="{term}"')
+        else:
+            args.append(f'--ode-modifier="{";".join(om)}"')
     cwd = os.getcwd()
     os.chdir(proj)
     try:
